@@ -1,7 +1,9 @@
 (* C20 -- the property theorems and nothing else.  Each is closed by `exact <lemma>`; vlib runs
    Print Assumptions on every one of them on every check run. *)
 From Coq Require Import ZArith.
-From Kenlm Require Import Base.Mem Gen.BitPacking C20.BitPackingProofs.
+From Coq Require Import List.
+From Kenlm Require Import Base.Mem Gen.BitPacking Gen.SortedUniform C20.BitPackingProofs C20.ProbingModel C20.ProbingProofs C20.SearchModel C20.SearchProofs.
+Import ListNotations.
 Local Open Scope Z_scope.
 
 (* A value written at any bit offset with any width <= 57 into zeroed target bits reads back unchanged. *)
@@ -49,3 +51,80 @@ Proof. exact float31_roundtrip. Qed.
 Theorem C20_required_bits : forall x, 0 <= x < 2 ^ 64 ->
   RequiredBits 65 x = Some (if x =? 0 then 0 else Z.log2 x + 1).
 Proof. exact required_bits_spec. Qed.
+
+(* ---- probing hash table: any legal operation sequence (non-invalid keys, Insert only of absent keys) behaves
+        exactly like a finite map with a capacity: lookups return the bound value or absence, FindOrInsert finds
+        or inserts, and the operation that would fill the last bucket throws -- for every bucket count and both
+        mod policies.  (run stops at the first exception; RFuel = probe loop exhausted, which arun never yields.) *)
+Theorem C20_probing_refines_map_divmod : forall n ops, (0 < n)%nat -> ops_ok [] ops ->
+  run n (ideal_of DivMod n) (next_of DivMod n) (empty_table n) ops = arun n [] ops.
+Proof. exact divmod_refines_map. Qed.
+
+Theorem C20_probing_refines_map_pow2 : forall b ops, ops_ok [] ops ->
+  run (2 ^ b) (ideal_of Power2Mod (2 ^ b)) (next_of Power2Mod (2 ^ b)) (empty_table (2 ^ b)) ops = arun (2 ^ b) [] ops.
+Proof. exact pow2_refines_map. Qed.
+
+(* one step, from any state representing a map: FindOrInsert at capacity raises instead of looping *)
+Theorem C20_probing_capacity_throws : forall n ideal next t m k v, (0 < n)%nat -> (forall k, (ideal k < n)%nat) ->
+  (forall i, (i < n)%nat -> next i = nxt n i) -> rep n ideal t m -> k <> 0 -> alookup m k = None ->
+  (Z.of_nat (length m) + 1 >=? Z.of_nat n) = true ->
+  find_or_insert n ideal next t (k, v) = Throw /\ insert n ideal next t (k, v) = Throw.
+Proof.
+  intros n ideal next t m k v Hn Hi Hx R Hk Hnone Hfull. split.
+  - pose proof (find_or_insert_refines n Hn ideal Hi next Hx t m k v R Hk) as H. rewrite Hnone, Hfull in H. exact H.
+  - pose proof (insert_refines n Hn ideal Hi next Hx t m k v R Hk Hnone) as H. rewrite Hfull in H. exact H.
+Qed.
+
+Theorem C20_probe_terminates : forall n ops, (0 < n)%nat -> ops_ok [] ops ->
+  ~ In RFuel (run n (ideal_of DivMod n) (next_of DivMod n) (empty_table n) ops).
+Proof.
+  intros n ops Hn Hok. apply (run_no_fuel n Hn (ideal_of DivMod n) (fun k => divmod_ideal_lt n k Hn) (next_of DivMod n)
+    (fun i Hi => divmod_next_is n i Hi) ops (empty_table n) []); [apply rep_empty; exact Hn|exact Hok].
+Qed.
+
+(* ---- interpolation / binary search.  For ANY pivot function that is below the width whenever it is asked about
+        off <= range < R and 0 < width <= Wd (exactly what the loop passes), over any sorted array with values in [0,R):
+        reports the key present exactly when it occurs, with a position holding it, and terminates. *)
+Theorem C20_bounded_find_correct : forall a pivot R Wd, R <= 2 ^ 64 -> forall fuel b e key,
+  pivot_ok pivot R Wd -> b <= e -> e - b - 2 <= Wd ->
+  (forall i j, b <= i -> i <= j -> j < e -> a i <= a j) ->
+  (forall i, b <= i < e -> 0 <= a i < R) -> 0 <= key < R ->
+  (Z.of_nat fuel >= Z.max 1 (e - b)) ->
+  exists r, sorted_uniform_find a pivot fuel b e key = Some r /\
+    match r with
+    | Some p => b <= p < e /\ a p = key
+    | None => forall i, b <= i < e -> a i <> key
+    end.
+Proof. exact sorted_uniform_find_correct. Qed.
+
+(* instantiated with the translator-generated Pivot32::Calc: 32-bit keys (word indices), up to 2^32 elements *)
+Theorem C20_sorted_uniform_find_pivot32 : forall a fuel b e key,
+  b <= e -> e - b - 2 <= 2 ^ 32 ->
+  (forall i j, b <= i -> i <= j -> j < e -> a i <= a j) ->
+  (forall i, b <= i < e -> 0 <= a i < 2 ^ 32) -> 0 <= key < 2 ^ 32 ->
+  (Z.of_nat fuel >= Z.max 1 (e - b)) ->
+  exists r, sorted_uniform_find a Pivot32_Calc fuel b e key = Some r /\
+    match r with
+    | Some p => b <= p < e /\ a p = key
+    | None => forall i, b <= i < e -> a i <> key
+    end.
+Proof. exact sorted_uniform_find_pivot32. Qed.
+
+Theorem C20_binary_find_correct : forall a fuel b e key,
+  (forall i j, b <= i -> i <= j -> j < e -> a i <= a j) ->
+  (Z.of_nat fuel >= Z.max 1 (e - b + 1)) ->
+  exists r, binary_find a fuel b e key = Some r /\
+    match r with
+    | Some p => b <= p < e /\ a p = key
+    | None => forall i, b <= i < e -> a i <> key
+    end.
+Proof. exact binary_find_correct. Qed.
+
+Theorem C20_pivot32_in_range : forall off range width,
+  0 <= off <= range -> range + 1 < 2 ^ 64 -> 0 < width -> off * width < 2 ^ 64 ->
+  0 <= Pivot32_Calc off range width < width.
+Proof. exact pivot32_in_range. Qed.
+
+Theorem C20_pivot64_in_range : forall f off range width, 0 < width -> 0 <= f off range width ->
+  0 <= Pivot64_Calc f off range width < width.
+Proof. exact pivot64_in_range. Qed.
